@@ -29,6 +29,10 @@ NEG = (("OneGroupPerEntry", "NoSkip"), ("LabelEveryGroup", "Labelled"), ("KeyByH
        ("DropReapplied", "TenureOrder"))
 
 
+ACTIONS = ("Apply", "Ingest", "Flush", "Take", "SendOK", "Gain", "Lose", "Broadcast", "LeaderPrune", "FollowerRecv",
+           "SnapshotSync", "Restart", "EndpointDown", "EndpointUp")
+
+
 def design(ctx):
     """exhaustive model checking, negative controls, liveness - several TLC processes side by side (<= 4 workers in all)"""
     lock = threading.Lock()
@@ -39,25 +43,38 @@ def design(ctx):
             add0(key, n)
     ctx.add = add
     jobs = []
-    mc = [("CDC_mc.cfg", 1), ("CDC_mc_restart.cfg", 1)]
+    mc = [("CDC_mc.cfg", 1), ("CDC_mc_restart.cfg", 1), ("CDC_mc_chan.cfg", 1)]
     if ctx.thorough:
         mc += [("CDC_mc_full.cfg", 2), ("CDC_mc_async.cfg", 2), ("CDC_mc_restart2.cfg", 2), ("CDC_mc_4e.cfg", 2), ("CDC_mc_3n.cfg", 2)]
     with ThreadPoolExecutor(max_workers=ctx.pick(4, 2)) as ex:
         for cfg, w in mc:
-            jobs.append(ex.submit(vlib.tlc_mc, ctx, "CDC", cfg, workers=w, timeout=3000, heap="6g"))
+            # a configuration leaves out some features (restart, separate in-channel, asynchronous HWM updates); vacuity is
+            # judged over all configurations of the tier together, below
+            jobs.append(ex.submit(vlib.tlc_mc, ctx, "CDC", cfg, workers=w, timeout=3000, heap="6g", vacuity_ok=ACTIONS))
         for sw, inv in NEG:
             jobs.append(ex.submit(vlib.tlc_neg, ctx, "CDC", "CDC_neg_%s.cfg" % sw, expect=inv, workers=1, heap="2g"))
-        jobs.append(ex.submit(vlib.tlc_neg, ctx, "CDC", "CDC_neg_live_RewindCursor.cfg", expect="temporal", workers=1, heap="2g"))
+        nlive = ex.submit(vlib.tlc, ctx, "CDC", "CDC_neg_live_RewindCursor.cfg", workers=1, coverage=False, heap="2g", expect_violation=True)
         live = [ex.submit(vlib.tlc, ctx, "CDC", c, workers=1, coverage=False, timeout=3000, heap="4g")
                 for c in (["CDC_live1.cfg"] + (["CDC_live.cfg"] if ctx.thorough else []))]
         for j in jobs:
             j.result()
+        r = nlive.result()
+        if "Temporal property Live was violated" not in r["out"]:
+            raise vlib.Undecided("negative control CDC_neg_live_RewindCursor.cfg: liveness not refuted\n%s" % r["out"][-2000:])
+        ctx.cov.setdefault("negative_controls", []).append({"cfg": "CDC_neg_live_RewindCursor.cfg", "violated": "Live", "wall_s": r["wall_s"]})
         for j in live:
             r = j.result()
             if not r["ok"]:
                 raise vlib.Undecided("liveness %s: %s\n%s" % (r["cfg"], r["violated"], r["out"][-3000:]))
             ctx.cov.setdefault("liveness", []).append({"cfg": r["cfg"], "distinct": r["distinct"], "wall_s": r["wall_s"]})
     ctx.add = add0
+    taken = {}
+    for m in ctx.cov.get("tlc_models", []):
+        for a, c in m["actions"].items():
+            taken[a] = taken.get(a, 0) + c
+    dead = [a for a in ACTIONS if taken.get(a, 0) == 0]
+    if dead:
+        raise vlib.Undecided("vacuous actions in CDC over all exhaustive configurations: %s" % dead)
 
 
 def run_of(rows, i):
